@@ -61,11 +61,17 @@ class StatementSplitter:
 
         # BEGIN and CASE/WHEN both end with END
         if unified == 'END':
-            if not self._in_case:
-                self._begin_depth = max(0, self._begin_depth - 1)
-            else:
+            if self._in_case:
+                # closes a CASE that raised the level
                 self._in_case = False
-            return -1
+                return -1
+            if self._begin_depth > 0:
+                self._begin_depth -= 1
+                # BEGIN only raised the level inside CREATE
+                return -1 if self._is_create else 0
+            # an END without a counted opener (e.g. a CASE expression
+            # outside of CREATE ... BEGIN) must not lower the level
+            return 0
 
         if (unified in ('IF', 'FOR', 'WHILE', 'CASE')
                 and self._is_create and self._begin_depth > 0):
